@@ -265,6 +265,56 @@ def gen_acyclic(rng: random.Random, max_top: int = 9, blocks: bool = False) -> l
     return items
 
 
+def gen_redefined_between_calls(rng: random.Random) -> list[Item]:
+    """The same `Call macro: B` LINE runs more than once (it sits in macro A, which is called repeatedly, possibly
+    through a further macro C) and B is re-defined in the main flow between two of those runs: every run must use
+    the definition that is current when it happens.  Straight-line, acyclic: `expand` gives the Mark trace."""
+    n = [0]
+
+    def mk(pfx: str) -> Item:
+        n[0] += 1
+        return ("mark", f"{pfx}{n[0]}")
+
+    def bdef() -> Item:
+        b: list[Item] = [mk("b")]
+        if rng.random() < 0.5:
+            b.append(rng.choice([("wait", "0.25s"), ("cmd", "CmdA"), mk("b")]))
+        return ("macro", "B", b)
+    a_body: list[Item] = [mk("a")]
+    if rng.random() < 0.4:
+        a_body.append(("wait", "0.25s"))
+    a_body.append(("call", "B"))
+    if rng.random() < 0.5:
+        a_body.append(mk("a"))
+    items: list[Item] = [bdef(), ("macro", "A", a_body)]
+    outer = "A"
+    if rng.random() < 0.3:
+        items.append(("macro", "C", [mk("c"), ("call", "A")]))
+        outer = "C"
+    items.append(("call", outer))
+    for _ in range(rng.randrange(1, 4)):
+        if rng.random() < 0.3:
+            items.append(mk("s"))
+        if rng.random() < 0.8:
+            items.append(bdef())                       # B re-defined between two runs of the call line inside A
+        items.append(("call", rng.choice([outer, "A"])))
+    items.append(mk("e"))
+    return items
+
+
+def gen_alarm_redefine(rng: random.Random) -> list[Item]:
+    """`Call macro: B` inside an Alarm that fires again and again; the main flow re-defines B while the Alarm
+    keeps firing and then sets the Mark `redefined`."""
+    first = [("mark", "old1"), ("mark", "old2")] if rng.random() < 0.5 else [("mark", "old1")]
+    second = [("mark", "new1"), ("mark", "new2")] if rng.random() < 0.5 else [("mark", "new1")]
+    alarm_body: list[Item] = [("mark", "x")]
+    if rng.random() < 0.5:
+        alarm_body.append(("wait", "0.25s"))
+    alarm_body.append(("call", "B"))
+    return [("macro", "B", first), ("alarm", "T0 >= 0", alarm_body), ("wait", rng.choice(["2s", "3s"])),
+            ("macro", "B", second), ("mark", "redefined"), ("wait", "6s"), ("mark", "end")]
+
+
 SHAPES = ["direct-first", "after-other-call", "in-watch", "in-alarm", "in-block", "indirect", "indirect-after-call",
           "indirect-in-watch", "foreign-cycle",
           # a container (whose own lines do not close the cycle) BEFORE the call that does
